@@ -83,8 +83,10 @@ def cfg_forms(nslots, quick):
     return forms
 
 
-def rc(sev, msg, args, via="method", caller=False, cls="", sizes=None):
-    return dict(sev=sev, msg=list(msg), sizes=list(sizes or [0] * len(msg)), args=args, caller=caller, cls=cls, via=via)
+def rc(sev, msg, args, via="method", caller=False, cls="", sizes=None, cfile="plain"):
+    """cfile (with caller): the issuing statement sits behind a //line directive whose file name carries a character of
+    that class (harness/fam_encoder_sites.go; "plain": the worker's ordinary source file)."""
+    return dict(sev=sev, msg=list(msg), sizes=list(sizes or [0] * len(msg)), args=args, caller=caller, cfile=cfile, cls=cls, via=via)
 
 
 M1 = ["plain"]
@@ -145,7 +147,9 @@ def groups(fmt, quick):
                             # a group whose members carry reserved field names (ordinary attributes: req.time, req.msg)
                             rc(9, MT, [node(1, "string", 1), node(2, "group", 2, sub=[node(3, "int", 3), node(98, "string", 4),
                                                                                        node(99, "time", 5)])],
-                               via="logattrs", cls="t")]))
+                               via="logattrs", cls="t"),
+                            # issued from a statement behind `//line C:\\work\\...` (a backslash in caller.file)
+                            rc(4, M1, [node(1, "string", 1)], caller=True, cfile="bslash", cls="w")]))
     # --- seq: consecutive records / collections over loggers of all three formats
     seq_classes = [rc(4, M1, [], cls="bare"),
                    rc(3, M1, [node(1, "int", 1)], cls="a1"),
@@ -156,6 +160,10 @@ def groups(fmt, quick):
     seq_classes += [rc(4, M1, [node(1, "int", 1), node(2, "string", 2), node(1, "int", 3)], cls="dup"),
                     rc(3, ["plain", "space", "plain"], [node(1, "string", 1, size=900), node(2, "string", 2, vc="quote", size=700)],
                        via="ctx", cls="mid", sizes=[800, 0, 700])]
+    # the caller member with file names that need escaping, between records of the other shapes
+    seq_classes += [rc(3, M1, [node(1, "int", 1)], via="ctx", caller=True, cfile="quote", cls="cq")]
+    if not quick:
+        seq_classes += [rc(4, M3, [node(1, "error", 1)], caller=True, cfile="TAB", cls="ct")]
     if not quick:
         seq_classes += [rc(8, MT, [], cls="trail"), rc(9, M1, [node(1, "int", 1), node(2, "int", 2)], via="ctx", cls="a2")]
     gs.append(dict(base, name="seq", hist=2, gcs=[1] if quick else [1, 2],
@@ -205,6 +213,11 @@ def mix_group(fmt, quick):
         classes += gs[n]["classes"]
     bigs = [c for c in gs["big"]["classes"] if c["cls"] == "big"]
     classes += bigs[:3] + bigs[-2:]
+    for i, cf in enumerate(["bslash", "space", "C0", "nonascii", "lsep", "CR", "DEL", "astral", "equals", "markup"]):
+        if fmt == "color" and cf in ("C0", "CR", "DEL"):
+            continue                # colored layout is claimed for file names without control characters
+        classes.append(rc((4, 3, 2, 9)[i % 4], (M1, M3, MT)[i % 3], [node(1, ("int", "string", "error")[i % 3], 1)],
+                          via=("method", "ctx", "logattrs")[i % 3], caller=True, cfile=cf, cls="c-" + cf))
     own3 = [node(40, "int", 40), node(41, "string", 41), node(42, "bool", 42)]
     return dict(name="mix", hist=0, kinds="split", customs=[101, 102, 103], regforms=["title", "titlecolor", "tags", "tagsbg"],
                 widths=[1, 2, 3, 4, 5], minwidths=[16, 36, 80], switchkinds=["debug", "trace"],
@@ -228,7 +241,8 @@ def tla_consts(g):
         CfgIds=set(range(1, nf + 1)),
         CfgForms=[dict(how=f["how"], p=f["p"], calls=f["calls"]) for f in g["forms"]],
         RcIds=set(range(1, nr + 1)),
-        RecClasses=[dict(sev=c["sev"], msg=c["msg"], args=c["args"], caller=c["caller"], cls=c["cls"]) for c in g["classes"]],
+        RecClasses=[dict(sev=c["sev"], msg=c["msg"], args=c["args"], caller=c["caller"], cfile=c.get("cfile", "plain"), cls=c["cls"])
+                    for c in g["classes"]],
         Customs=set(g["customs"]), RegForms=set(g["regforms"]), Widths=set(g["widths"]), MinWidths=set(g["minwidths"]),
         SwitchKinds=set(g["switchkinds"]), SwitchVias=set(g["switchvias"]), GCs=set(g["gcs"]),
         ColSevs=set(g.get("colsevs", [])), ColFgs=set(g.get("colfgs", [])), ColBgs=set(g.get("colbgs", [])),
